@@ -163,10 +163,17 @@ def plan_jobs(chk, quota, rnd):
     return thin(jobs, quota, rnd), total
 
 
+# built-in formatters outside the statement's report clauses: placed FIRST in a run, they must not keep the others from
+# getting every callback up to the single close() (C15.no_crash / grammar / json_valid)
+EXTRA_FORMATS = ["tags", "tags.location", "steps", "steps.doc", "steps.usage", "steps.catalog", "steps.bad", "steps.code", "sphinx.steps",
+                 "rerun", "progress", "null"]
+
+
 def format_sets(chk, rnd):
     """-> list of formatter lists: quick some subsets and orders, thorough every subset of size <= 3 (order shuffled)
     and every ordered pair"""
-    sets = [list(ALL_FORMATS), list(reversed(ALL_FORMATS))]
+    sets = [list(ALL_FORMATS), list(reversed(ALL_FORMATS))] + [[x, "json", "plain"] for x in EXTRA_FORMATS] + \
+           [["tags", "tags.location", "json.pretty", "progress3"]]
     subsets = [list(s) for n in (1, 2, 3) for s in itertools.combinations(ALL_FORMATS, n)]
     if chk.quick():
         sets += [[f] for f in ALL_FORMATS]
@@ -203,10 +210,14 @@ def formats_jobs(chk, base_jobs, rnd):
     # cases that reach the formatters' corners first: dry-run, converter errors, rules after scenarios, tags
     ranked = sorted(base_jobs, key=lambda j: -sum(1 for v in features_of(j).values() if v))
     pool = ranked[:max(200, len(ranked) // 3)]
+    # programs without any tag (run without tag expression) for every other row of the sets that start with an extra formatter
+    untagged = [j for j in base_jobs if not any(e["tags"] for e in j["flat"]["elems"]) and not G.EXPRS[j["cfg"]["expr"]]["text"]] or pool
     out = []
     for si, fs in enumerate(sets):
         for k in range(per):
             j = pool[(si * per + k * 7) % len(pool)]
+            if fs[0] in EXTRA_FORMATS and k % 2 == 0:
+                j = untagged[(si * per + k * 7) % len(untagged)]
             out.append(dict(j, key=["formats", si, k] + j["key"][1:], formats=fs, switches=SWITCHES[(si + k) % len(SWITCHES)], **{"pass": "formats"}))
     return out
 
@@ -359,6 +370,9 @@ class Decorated(_Rendered):
                     continue
                 at = self.line_of[d["el"]] + d["k"]
                 ind = " " * (len(lines[at - 1]) - len(lines[at - 1].lstrip()) + 2)
+                if "arg" in d:                          # typed parameter in front of the step text: Given with <arg> own 1
+                    lines[at - 1] = lines[at - 1].replace("Given ", "Given with %s " % d["arg"], 1)
+                    continue
                 if "table" in d:
                     t = d["table"]
                     new = [ind + "| " + " | ".join(r) + " |" for r in [t["headings"]] + t["rows"]]
@@ -399,17 +413,56 @@ class Decorated(_Rendered):
                 self.line_of[el] = shift[-key[1]]
 
 
+ARGS = ["dec:3.50", "frac:1/3", "cplx:1+2j", "bool:yes", "none:x", "list:a,b", "obj:thing", "int:7", "float:2.5"]
+
+
+class _Thing(object):
+    def __init__(self, name):
+        self.name = name
+
+
+def _convert_arg(text):
+    """converter of the step parameter type `Val`: Decimal, Fraction, complex, bool, None, list, custom object, int, float"""
+    import decimal
+    import fractions
+    kind, _, v = text.partition(":")
+    return {"dec": lambda: decimal.Decimal(v), "frac": lambda: fractions.Fraction(v), "cplx": lambda: complex(v),
+            "bool": lambda: v == "yes", "none": lambda: None, "list": lambda: v.split(","), "obj": lambda: _Thing(v),
+            "int": lambda: int(v), "float": lambda: float(v)}[kind]()
+
+
+_convert_arg.pattern = r"\w+:\S+"
+
+
 def decor_case(job):
-    """run_case on the decorated rendering of the job's program"""
+    """run_case on the decorated rendering of the job's program.  Steps with a typed parameter (`with <arg> own 1`) need a
+    step definition the shared driver does not have: every StepRegistry created during this run gets one more generic
+    step `with {val:Val} {org:w} {k:d}` in front, which hands over to the driver's own step function."""
     import traceback
+    from behave.step_registry import StepRegistry
+    from behave.matchers import ParseMatcher
     try:
         cls = type("DecoratedCase", (Decorated,), {"decor": job["decor"]})
         orig = stage.drive.Rendered
+        orig_init = StepRegistry.__init__
+
+        def init(self, *a, **kw):
+            orig_init(self, *a, **kw)
+            reg = self
+
+            def typed(ctx, val, org, k):
+                for m in reg.steps["step"]:
+                    if getattr(m, "pattern", None) == "{org:w} {k:d}":
+                        return m.func(ctx, org, k)
+                raise RuntimeError("the driver's step definition was not found")
+            self.steps["step"].append(ParseMatcher(typed, "with {val:Val} {org:w} {k:d}", "step", custom_types={"Val": _convert_arg}))
         stage.drive.Rendered = cls
+        StepRegistry.__init__ = init
         try:
             row = stage.drive.run_case(run_job({k: v for k, v in job.items() if k != "decor"}), reports=True)
         finally:
             stage.drive.Rendered = orig
+            StepRegistry.__init__ = orig_init
         row["key"] = job["key"]
         return row
     except Exception:
@@ -445,6 +498,8 @@ def decor_jobs(chk, rnd):
                     decor.append({"el": e["id"], "k": k, "table": pool_t[(i + 2 * k + e["id"]) % len(pool_t)]})
                 elif c == 2:
                     decor.append({"el": e["id"], "k": k, "text": pool_x[(i + k) % len(pool_x)]})
+                if (i + 3 * k + e["id"]) % 3 == 0:         # a typed parameter, with or without table / doc-string
+                    decor.insert(0, {"el": e["id"], "k": k, "arg": ARGS[(i + k + e["id"]) % len(ARGS)]})
         job = {"key": ["decor", i], "prog": prog, "flat": flat, "cfg": G.cfg(dry=(i % 5 == 4), show_skipped=True), "fault": [0, 0],
                "fault_kind": "exc", "pass": "decor", "decor": decor, "switches": [[], ["--no-multiline"]][i % 2]}
         if i % 4 == 3:
@@ -546,7 +601,7 @@ def run(chk):
     rnd = random.Random(chk.seed)
     quick = chk.quick()
     # real runs first: multiprocessing forks, so no other thread of this process may be alive meanwhile
-    base, planned = plan_jobs(chk, 1100 if quick else 24000, rnd)
+    base, planned = plan_jobs(chk, 1000 if quick else 24000, rnd)
     fjobs = formats_jobs(chk, base, rnd)
     real_out = stage.drive_all([run_job(j) for j in base + fjobs], procs=PROCS)
     quiet = [j for j, o in zip(base, real_out) if ((o.get("reports") or {}).get("c15") or {}).get("quiet_stdout") and
